@@ -326,13 +326,26 @@ def make_source(rng, kind, plant):
         hint = rng.choice(('Any', 'object'))
     method = rng.random() < .2
     future = rng.random() < .2
-    head = ('async ' if kind != 'generator' else '') + 'def f(' + ('self, ' if method else '') + 'log: list' + \
-           (', flag: bool = False' if rng.random() < .3 else '') + ')' + (f' -> {hint}' if hint else '') + ':'
-    fn = [head] + ind(lines)
+    wraps = None
+    if not method and rng.random() < .15:
+        # the decorated callable is a functools.wraps pass-through closure (*args, **kwargs) of this kind around a
+        # function of ANOTHER kind (asyncify / to-generator adapters): its kind is the closure's, not the wrappee's
+        wraps = rng.choice([k for k in ('function', 'generator', 'coroutine', 'asyncgen') if k != kind])
+        inner = {'function': ['def _inner(log: list)%s:', '    return None'],
+                 'generator': ['def _inner(log: list)%s:', '    yield 0'],
+                 'coroutine': ['async def _inner(log: list)%s:', '    return 0'],
+                 'asyncgen': ['async def _inner(log: list)%s:', '    yield 0']}[wraps]
+        inner[0] = inner[0] % (f' -> {hint}' if hint else '')
+        head = ('async ' if kind != 'generator' else '') + 'def f(*args, **kwargs):'
+        fn = inner + ['@functools.wraps(_inner)', head] + ind(['log = args[0]'] + lines)
+    else:
+        head = ('async ' if kind != 'generator' else '') + 'def f(' + ('self, ' if method else '') + 'log: list' + \
+               (', flag: bool = False' if rng.random() < .3 else '') + ')' + (f' -> {hint}' if hint else '') + ':'
+        fn = [head] + ind(lines)
     if method:
         fn = ['class K:'] + ind(fn)
-    src = ('from __future__ import annotations\n' if future else '') + PRELUDE + '\n'.join(fn) + '\n'
-    info = dict(features=sorted(b.features), planted=planted, method=method, future=future,
+    src = ('from __future__ import annotations\n' if future else '') + 'import functools\n' + PRELUDE + '\n'.join(fn) + '\n'
+    info = dict(features=sorted(b.features), planted=planted, method=method, future=future, wraps=wraps,
                 has_finally='tryfin' in b.features, has_tryexc='tryexc' in b.features,
                 susp_in_finally='suspending-await-in-finally' in b.features)
     return src, hint, info
@@ -653,6 +666,10 @@ def main():
                 continue
             W.count('bodies')
             W.count('bodies.' + kind)
+            if info['wraps']:
+                W.count('bodies_that_are_wraps_closures_around_another_kind')
+                W.count(f'wraps.{kind}-closure-around-{info["wraps"]}')
+                base_w['decorated'] = f'functools.wraps closure around a {info["wraps"]}'
             W.add('hints', f'{kind}:{hint}')
             W.add('confs', confname)
             for f_ in info['features']:
@@ -699,6 +716,7 @@ def main():
     W.need('dropped_without_close', 100)
     W.need('close_mid_stream', 100)
     W.need('kind_predicates_compared', 300)
+    W.need('bodies_that_are_wraps_closures_around_another_kind', 30)
     W.finish()
 
 
